@@ -44,6 +44,11 @@ def derive_seed(seed: int, shard: int, salt: str = "") -> int:
     return int.from_bytes(h[:8], "big")
 
 
+class EnoughEvidence(BaseException):
+    """A shard that has found a new violation keeps collecting for a bounded time only (a broken tree can make every
+    case pathologically slow); raised from ShardCtx.case(), caught in _worker. BaseException: Hypothesis lets it through."""
+
+
 @dataclass
 class ShardCtx:
     """What a shard reports. Plain data so that it crosses the process boundary."""
@@ -63,12 +68,17 @@ class ShardCtx:
     violations: dict = field(default_factory=dict)  # sig -> list[dict]
     extra: dict = field(default_factory=dict)
     notes: list = field(default_factory=list)
+    known_sigs: set = field(default_factory=set)
+    first_new_violation_t: float | None = None
 
     # -- reporting API -------------------------------------------------
     def case(self, *, nontrivial_key: Any = None, classes=(), sample: Any = None) -> None:
         """Count one evaluated case. `nontrivial_key` is a hashable/JSON-able shape
         description when the case is non-trivial by the module's rule (else None)."""
         self.evaluations += 1
+        if self.first_new_violation_t is not None and time.time() - self.first_new_violation_t > self.budget.get("stop_after_violation_s", 90 if self.tier == "quick" else 600):
+            self.notes.append("stopped early: enough evidence after the first new violation")
+            raise EnoughEvidence
         if nontrivial_key is not None:
             self.nontrivial.add(stable_hash(nontrivial_key))
             if sample is not None and len(self.samples) < MAX_SAMPLES:
@@ -78,6 +88,8 @@ class ShardCtx:
 
     def violation(self, kind: str, site: str, detail: str, case: Any) -> None:
         sig = f"{kind}|{site}"
+        if sig not in self.known_sigs and self.first_new_violation_t is None:
+            self.first_new_violation_t = time.time()
         lst = self.violations.setdefault(sig, [])
         entry = {
             "kind": kind,
@@ -127,7 +139,11 @@ def _worker(args):
 
         mod = importlib.import_module(modname)
         ctx = ShardCtx(prop, tier, derive_seed(seed, shard, prop), shard, nshards, budget)
-        mod.shard(ctx)
+        ctx.known_sigs = {f"{e['signature']['kind']}|{e['signature']['site']}" for e in load_known().get("open", []) if e.get("property") == prop}
+        try:
+            mod.shard(ctx)
+        except EnoughEvidence:
+            pass
         return ("ok", ctx.to_payload())
     except BaseException:  # noqa: BLE001 - harness error, reported as exit 2
         return ("err", traceback.format_exc())
